@@ -38,4 +38,15 @@ PROPS = {
         "trusted": ["encoding/asn1 and crypto/sha256 are external; their agreement with the Lean reference (GabiModel.Der, GabiModel.Sha256) is what the correspondence ops test"],
         "assumptions": COMMON_ASSUME + ["SHA-256 collision resistance appears only as an explicit collision disjunct in the theorems"],
     },
+    "C16": {
+        "trusted": [
+            "primality inside the predicate is decided by the model's deterministic Miller-Rabin (20 bases) on the Lean side and by math/big ProbablyPrime on the Go side; the theorems take primality as a hypothesis",
+            "crypto/ecdsa, crypto/x509 (revocation key generation and encoding) are external; the Lean P-256 scalar multiplication re-derives the public point from the private scalar",
+            "runtime.NumGoroutine as the observation of workers still running; the labelled transition system Gabi.Conc.SafePrimeWorkers is a hand-written model of GenerateConcurrent and its consumer",
+        ],
+        "assumptions": COMMON_ASSUME + [
+            "Generate(bitsize, stopped) always returns (the candidate search finds a safe prime or observes `stopped` within 1000 iterations); the error path (failing crypto/rand) is not modelled",
+            "termination of the search for a matching pair is probabilistic (each candidate passes the filters with constant probability) and is observed, not proved",
+        ],
+    },
 }
